@@ -6,7 +6,12 @@ output, is handed to another function, is captured by a continuation closure, or
 which an input is merely dropped means that part of the program does not influence the result of the translation: that is
 how a shortcut with a missing side condition looks (the dropped variable is the one that should have been compared).  The
 inputs that are legitimately ignored on some path (type annotations, the continuation of `exit`/`goto`, ...) are listed in
-audit/unused_inputs.toml, one reason each."""
+audit/unused_inputs.toml, one reason each.
+
+The sub-terms of a by-value node are inputs of their own: for a struct parameter (`self: FsCut`) every tree-carrying field is
+followed through moves, clone-like calls and the tuples it is packed into for matching (`match (self.producer, self.consumer)`);
+an arm whose pattern leaves one side unexamined and whose body never mentions it (`(Mu{..}, _) if guard => translate(s)`) is a
+path on which that sub-term is dropped.  Discriminant reads that only take a value apart for dropping are not an inspection."""
 from .. import audit
 from ..core import RuleResult
 from ..facts import AnalysisError
@@ -63,6 +68,121 @@ def _use_blocks(f, alias):
                     if a.get("pl") and a["pl"]["l"] in alias:
                         out.add(bi)
     return out
+
+
+_PASS = ("deref", "deref_mut", "as_ref", "borrow", "clone", "unwrap_or_clone", "as_slice", "as_str")
+
+
+def _component_dropped(f, p, fld):
+    """A field of a by-value struct parameter as an input of its own: the block of a return reached on a path on which the field -
+    followed through moves, clone-like calls and tuples it is packed into (`match (self.producer, self.consumer) { (.., _) => ..`) -
+    is neither inspected, moved apart, handed to a call nor built into a value; None if there is no such path."""
+    from .termination import _natural_loops
+    PASS = _PASS
+    fn=Fn(f)
+    whole=set()            # locals that are the input
+    comps={(p,fld)}        # (local, first field name/index) that hold the input
+    def is_comp(pl):
+        if not pl: return False
+        if pl["l"] in whole: return True
+        if pl["l"]==p and not any(isinstance(e,dict) and "f" in e for e in pl["p"]): return True
+        for e in pl["p"]:
+            if isinstance(e,dict) and "f" in e:
+                return (pl["l"], e["n"]) in comps
+            if e=="*" or (isinstance(e,dict) and "dc" in e): continue
+            break
+        return False
+    changed=True
+    while changed:
+        changed=False
+        for b in f["blocks"]:
+            for s in b["stmts"]:
+                if s["k"]!="assign": continue
+                rv=s["rv"]; lhs=s["lhs"]
+                o=rv.get("op"); pl=rv.get("pl") or (o.get("pl") if isinstance(o,dict) else None)
+                if rv["k"] in ("use","ref","cast") and is_comp(pl) and not lhs["p"] and lhs["l"] not in whole:
+                    # only exact component (no deeper projection) becomes a whole alias
+                    deeper=[e for e in pl["p"] if isinstance(e,dict) and "f" in e]
+                    if pl["l"] in whole and not deeper or (pl["l"] not in whole and len(deeper)==1):
+                        whole.add(lhs["l"]); changed=True
+                if rv["k"]=="agg" and rv.get("agg")=="tuple" and not lhs["p"]:
+                    for i,op in enumerate(rv["ops"]):
+                        if op.get("pl") and not op["pl"]["p"] and op["pl"]["l"] in whole and (lhs["l"],str(i)) not in comps:
+                            comps.add((lhs["l"],str(i))); changed=True
+            t=b["term"]
+            if t["k"]=="call" and t.get("callee_name") in PASS and (t.get("callee") or "").startswith(("core::","alloc::","std::")) and t["args"] and t["args"][0].get("pl") and t.get("dest") and not t["dest"]["p"]:
+                pl=t["args"][0]["pl"]
+                deeper=[e for e in pl["p"] if isinstance(e,dict) and "f" in e]
+                if is_comp(pl) and (pl["l"] in whole and not deeper or (pl["l"] not in whole and len(deeper)==1)) and t["dest"]["l"] not in whole:
+                    whole.add(t["dest"]["l"]); changed=True
+    ladder_memo = {}
+
+    def drop_ladder(b0):
+        """everything reachable from the block only drops values and returns: the discriminant is read to take the value apart for
+        dropping (drop elaboration of a partially moved tuple), not to decide what the translation is"""
+        if b0 in ladder_memo:
+            return ladder_memo[b0]
+        seen_, work_ = set(), [b0]
+        ok_ = True
+        while work_ and ok_:
+            x_ = work_.pop()
+            if x_ in seen_:
+                continue
+            seen_.add(x_)
+            blk = f["blocks"][x_]
+            for s_ in blk["stmts"]:
+                if s_["k"] != "assign":
+                    continue
+                rv_ = s_["rv"]
+                if rv_["k"] == "discr" or (rv_["k"] == "use" and isinstance(rv_.get("op"), dict) and rv_["op"].get("k") == "const"):
+                    continue
+                if rv_["k"] in ("use", "ref") and x_ != b0 and False:
+                    continue
+                ok_ = False
+            if blk["term"]["k"] not in ("drop", "goto", "switch", "return", "resume", "unreachable"):
+                ok_ = False
+            work_.extend(fn.succ[x_])
+        ladder_memo[b0] = ok_
+        return ok_
+    use=set()
+    for bi,b in enumerate(f["blocks"]):
+        for s in b["stmts"]:
+            if s["k"]!="assign": continue
+            rv=s["rv"]
+            if rv["k"]=="discr" and is_comp(rv.get("pl")) and not drop_ladder(bi): use.add(bi)
+            ops=[rv.get("op"),rv.get("a"),rv.get("b")]+list(rv.get("ops",[]))
+            if rv.get("pl") and rv["k"] in ("ref","len"): ops.append({"pl":rv["pl"]})
+            for o in ops:
+                if isinstance(o,dict) and is_comp(o.get("pl")):
+                    pl=o["pl"]
+                    # moving the component itself into a tuple or alias is not a use; anything else is
+                    deeper=[e for e in pl["p"] if isinstance(e,dict) and "f" in e]
+                    exact = (pl["l"] in whole and not deeper) or (pl["l"] not in whole and len(deeper)==1 and not (pl["l"]==p and not deeper))
+                    if exact and (rv["k"] in ("use","ref","cast") and not s["lhs"]["p"] and s["lhs"]["l"]!=0 or (rv["k"]=="agg" and rv.get("agg")=="tuple")):
+                        continue
+                    use.add(bi)
+        t=b["term"]
+        if t["k"]=="call":
+            passthrough=t.get("callee_name") in PASS and (t.get("callee") or "").startswith(("core::","alloc::","std::"))
+            for a in t["args"]:
+                if is_comp(a.get("pl")):
+                    pl=a["pl"]; deeper=[e for e in pl["p"] if isinstance(e,dict) and "f" in e]
+                    exact = (pl["l"] in whole and not deeper) or (pl["l"] not in whole and len(deeper)==1 and not (pl["l"]==p and not deeper))
+                    if passthrough and exact: continue
+                    use.add(bi)
+        if t["k"]=="switch":
+            d=t.get("discr") or {}
+            if isinstance(d,dict) and is_comp(d.get("pl")): use.add(bi)
+    for h,body in _natural_loops(fn,f).items():
+        if use & body: use.add(h)
+    seen,work,bad=set(),[0],None
+    while work:
+        x=work.pop()
+        if x in seen or x in use or x not in fn.reach: continue
+        seen.add(x)
+        if f["blocks"][x]["term"]["k"]=="return": bad=x; break
+        work.extend(fn.succ[x])
+    return bad
 
 
 def rule_useall_for(crates, floor):
@@ -132,6 +252,45 @@ def _useall(ctx, zone, floor):
             res.violate(ikey, "%s: the input `%s` (%s) is dropped unused on a path to the return at line %s: this part of the program does not "
                         "influence the translation on that path" % (k.split("::")[-1] if not k.startswith("<") else k, pname, ty[:50], sp.get("line")),
                         f["sp"]["file"], f["sp"]["line"])
-    res.inst("inputs=%d" % n, None, None, "ok", "%d (function, by-value input) pairs examined, %d audited" % (n, len(used_rows)))
+    # the fields of a by-value node (`self`) are inputs of their own: each sub-term must matter on every path
+    from .termination import _tree_carrying
+    tc, _rec = _tree_carrying(fx)
+    n_comp = 0
+    for k, f in sorted(fx.fns.items()):
+        if f["crate"] not in zone or "{closure" in k or "{promoted" in k:
+            continue
+        if (f.get("impl_trait") or "").startswith(("core::", "std::", "alloc::", "scc_printer", "miette", "thiserror")):
+            continue
+        names = {v["pl"]["l"]: v["name"] for v in (f.get("vars") or []) if not v["pl"]["p"]}
+        for p in range(1, f["argc"] + 1):
+            loc = f["locals"][p]
+            if loc["ty"].startswith(("&", "fn", "*")) or names.get(p, "_").startswith("_"):
+                continue
+            A = fx.adts.get(loc.get("adt") or "")
+            if not A or A["kind"] != "struct" or (loc.get("adt") or "").split("::")[0] not in fx.crates:
+                continue
+            for fd in A["variants"][0]["fields"]:
+                c = fd.get("core") or fd.get("adt")
+                if not ((c in tc) or fd.get("is_param")) or (c or "").endswith(("::Ty", "::TypeArgs", "::Chirality")):
+                    continue
+                if fd.get("is_param") and fd["name"] in ("prdcns", "dat", "xtor"):
+                    continue        # chirality / polarity markers
+                n_comp += 1
+                ikey = "%s#%s.%s" % (k, names.get(p, "_%d" % p), fd["name"])
+                bad = _component_dropped(f, p, fd["name"])
+                if bad is None:
+                    res.inst(ikey, f["sp"]["file"], f["sp"]["line"], "ok", nontrivial=False)
+                    continue
+                row = rows.get(ikey)
+                if row:
+                    used_rows.add(ikey)
+                    res.inst(ikey, f["sp"]["file"], f["sp"]["line"], "audited", row["reason"])
+                    continue
+                sp = f["blocks"][bad]["term"].get("sp") or f["sp"]
+                res.inst(ikey, f["sp"]["file"], f["sp"]["line"], "violation")
+                res.violate(ikey, "%s: the sub-term `%s.%s` of the input is dropped unused on a path to the return at line %s: this part of the "
+                            "program does not influence the translation on that path" % (k.split("::")[-1] if not k.startswith("<") else k, names.get(p, "_%d" % p), fd["name"], sp.get("line")),
+                            f["sp"]["file"], f["sp"]["line"])
+    res.inst("inputs=%d" % n, None, None, "ok", "%d (function, by-value input) pairs and %d (function, input, field) triples examined, %d audited" % (n, n_comp, len(used_rows)))
     res.require_floor(floor)
     return res
